@@ -13,6 +13,7 @@ import (
 type Obligation struct {
 	In    ssa.Instruction
 	Desc  string // source-like construct, line independent: "value[2:4]"
+	Canon string // same with parameters named by position (used to match justified entries)
 	Kind  string // slice, index, accessor, xor, div
 	Base  ssa.Value
 	Goals []Goal
@@ -51,7 +52,7 @@ func boundsObligations(pr *Prover, fn *ssa.Function) []Obligation {
 	eachInstr(fn, func(b *ssa.BasicBlock, i int, in ssa.Instruction) {
 		switch x := in.(type) {
 		case *ssa.Slice:
-			ob := Obligation{In: x, Desc: exprDepth(x, 0), Kind: "slice", Base: x.X}
+			ob := Obligation{In: x, Desc: exprDepth(x, 0), Canon: exprCanon(x), Kind: "slice", Base: x.X}
 			length := pr.lenOfOperand(x.X)
 			// cap idiom
 			if x.Low == nil && x.High != nil {
@@ -83,20 +84,20 @@ func boundsObligations(pr *Prover, fn *ssa.Function) []Obligation {
 			}
 			out = append(out, ob)
 		case *ssa.IndexAddr:
-			ob := Obligation{In: x, Desc: exprDepth(x, 0), Kind: "index", Base: x.X}
+			ob := Obligation{In: x, Desc: exprDepth(x, 0), Canon: exprCanon(x), Kind: "index", Base: x.X}
 			l := pr.lenOfOperand(x.X)
 			ob.Goals = append(ob.Goals, Goal{X: nil, Y: x.Index, C: 0, Desc: "0 <= i"},
 				Goal{X: x.Index, YL: &l, C: -1, Desc: "i < len", extra: []ssa.Value{x.X}})
 			out = append(out, ob)
 		case *ssa.Index:
-			ob := Obligation{In: x, Desc: exprDepth(x, 0), Kind: "index", Base: x.X}
+			ob := Obligation{In: x, Desc: exprDepth(x, 0), Canon: exprCanon(x), Kind: "index", Base: x.X}
 			l := pr.lenOfOperand(x.X)
 			ob.Goals = append(ob.Goals, Goal{X: nil, Y: x.Index, C: 0, Desc: "0 <= i"},
 				Goal{X: x.Index, YL: &l, C: -1, Desc: "i < len", extra: []ssa.Value{x.X}})
 			out = append(out, ob)
 		case *ssa.Lookup:
 			if _, isStr := x.X.Type().Underlying().(*types.Basic); isStr {
-				ob := Obligation{In: x, Desc: exprDepth(x, 0), Kind: "index", Base: x.X}
+				ob := Obligation{In: x, Desc: exprDepth(x, 0), Canon: exprCanon(x), Kind: "index", Base: x.X}
 				l := pr.lenOfOperand(x.X)
 				ob.Goals = append(ob.Goals, Goal{X: nil, Y: x.Index, C: 0, Desc: "0 <= i"},
 					Goal{X: x.Index, YL: &l, C: -1, Desc: "i < len", extra: []ssa.Value{x.X}})
